@@ -1,6 +1,6 @@
-OUTSIDE = ("ares_uri.c (the dns:// nameserver form: ares_uri_parse_buf is stubbed as 'not a URI'); ares_hosts_file.c beyond ares_dns_pton; "
-           "the nsswitch.conf / netsvc.conf / svc.conf line readers (they share ares_buf_split and config_lookup, which are covered through "
-           "the resolv.conf 'lookup' keyword); ares_sysconfig_process_buf's own line loop and real file I/O / getenv (LOCALDOMAIN and "
+OUTSIDE = ("ares_uri.c itself (the URI *parser*; parse_nameserver_uri is checked against an abstract URI object in c15_nsuri_*); the hosts-file "
+           "reader on ARBITRARY bytes (c15_hosts_* are concrete files: the shapes with arbitrary bytes did not close) and its hostent/addrinfo "
+           "conversion, file caching (ares_hosts_update/expired); ares_init_sysconfig_files' fixed path list; real file I/O / getenv (LOCALDOMAIN and "
            "RES_OPTIONS reach config_search / ares_sysconfig_set_options, which are covered, but ares_init_by_environment itself is not run); "
            "texts longer than the stated byte counts; more than two options / servers / sortlist entries per text; allocation failure "
            "inside these parsers (C14); the fqdn[256] buffer of ares_lookup_hostaliases (probe did not close); IPv6 conversion inside the "
@@ -18,7 +18,18 @@ ASSUMPTIONS = ["array_ref.c: fixed-capacity reference implementation of the ares
                "c15_hostaliases: getenv and the C stream functions are in-memory stubs (no native replay for these jobs)",
                "jobs using goto-instrument --restrict-function-pointer (server list destructor = ares_free, as set by ares_sconfig_append) are "
                "not natively replayable",
-               "value bytes of an options token exclude blank/tab in the single-token jobs (a blank makes two tokens: junkafter/junkbefore jobs)"]
+               "value bytes of an options token exclude blank/tab in the single-token jobs (a blank makes two tokens: junkafter/junkbefore jobs)",
+               "c15_nsuri_*: the URI parser is abstract (stubs of ares_uri_parse_buf/get_scheme/get_host/get_port/get_query_key/destroy: scheme dns|https, "
+               "host = the job's concrete text, port arbitrary, tcpport absent or 0..6 arbitrary non-NUL bytes; the object must be destroyed exactly "
+               "once); the c15_nsuri_fromstr_* jobs always take the URI branch and have no tcpport key; expected address bytes come from Python's "
+               "ipaddress module",
+               "c15_nsswitch_*/c15_svcconf_*: the line is KW+VPREFIX (concrete) + 2..4 arbitrary bytes without line feed; the oracle is the harness's own "
+               "tokenizer (sysconfline.c r_read) with the word list dns|bind|resolv|resolve / files|file|local",
+               "c15_procbuf_*/c15_cfgfile_*: concrete texts; expected lines / lookups computed by Python (jobs.py _ref_lookups); c15_cfgfile_* and "
+               "c15_hosts_*: fopen/setvbuf/fseek/ftell/fread/fclose are in-memory stubs, file presence concrete per job, no native replay",
+               "c15_hosts_*: ares_htable_strvp = harness/stubs/strvp_ref.c (case-insensitive association list in insertion order, typed allocations); "
+               "snprintf = harness model snprintf_model.c (%u %x %d %s %% only); time() arbitrary; llist destructor restricted to ares_free; "
+               "concrete files only"]
 
 LIB = ["src/lib/ares_library_init.c", "src/lib/util/ares_math.c", "src/lib/str/ares_buf.c", "src/lib/str/ares_str.c"]
 SUP = ["vp_rt.c", "valloc.c", "memloops.c", "libc_extra.c", "array_ref.c"]
@@ -386,6 +397,87 @@ def sysconf_jobs(tier):
     return J
 
 
+HF_LIB = ["src/lib/ares_library_init.c", "src/lib/str/ares_buf.c", "src/lib/str/ares_str.c", "src/lib/inet_net_pton.c",
+          "src/lib/inet_ntop.c", "src/lib/dsa/ares_llist.c"]
+HF_SUP = ["vp_rt.c", "valloc.c", "memloops.c", "libc_extra.c", "strvp_ref.c", "snprintf_model.c"]
+
+
+def hosts_jobs(tier):
+    """ares_parse_hosts() on an in-memory hosts file (hostsline.c); '@' in the text = one arbitrary byte"""
+    J = []
+    V = 'name_has_ip(hf,"foo","1.2.3.4"); name_has_ip(hf,"bar","1.2.3.4"); name_ipcount(hf,"foo",1); addr_canon(hf,"1.2.3.4","foo"); ' \
+        'addr_has_host(hf,"1.2.3.4","bar"); addr_hostcount(hf,"1.2.3.4",2); same_entry(hf,"bar","1.2.3.4"); '
+    shapes = [
+        # (name, text, names0, checks, extra witnesses, anybyte)
+        ("valid", "1.2.3.4 foo bar\n", 2, V + "count_names(hf,2); count_addrs(hf,1);", [], False),
+        ("nonl", "1.2.3.4\tfoo  bar", 2, V + "count_names(hf,2); count_addrs(hf,1);", [], False),
+        ("comments", "# c 9.9.9.9 zed\n\n1.2.3.4 foo bar # baz\n   \n#x\n", 2,
+         V + 'absent_name(hf,"baz"); absent_name(hf,"zed"); absent_name(hf,"#"); absent_addr(hf,"9.9.9.9"); count_names(hf,2); count_addrs(hf,1);', [], False),
+        ("case", "1.2.3.4 Foo BAR\n", 2, V + "count_names(hf,2);", [], False),
+        ("v6norm", "0:0:0:0:0:0:0:1 foo\n", 1, 'name_has_ip(hf,"foo","::1"); addr_canon(hf,"::1","foo"); absent_addr(hf,"0:0:0:0:0:0:0:1"); count_addrs(hf,1);', [], False),
+        ("badaddr", "1.2.3.999 zed\n1.2.3.4 foo bar\n1.2.3.4.5 q\n", 2, V + 'absent_name(hf,"zed"); absent_name(hf,"q"); count_names(hf,2); count_addrs(hf,1);', [], False),
+        ("noname", "5.6.7.8\n5.6.7.9 # zed\n1.2.3.4 foo bar\n", 2, V + 'absent_addr(hf,"5.6.7.8"); absent_addr(hf,"5.6.7.9"); absent_name(hf,"zed"); count_names(hf,2); count_addrs(hf,1);', [], False),
+        ("badname", "1.2.3.4 foo b!r bar\n", 2, V + 'absent_name(hf,"b!r"); count_names(hf,2);', [], False),
+        # documented merging (file comment in ares_hosts_file.c)
+        ("merge_name", "1.2.3.4 foo\n5.6.7.8 foo bar\n", 2,
+         'name_has_ip(hf,"foo","1.2.3.4"); name_has_ip(hf,"foo","5.6.7.8"); name_ipcount(hf,"foo",2); same_entry(hf,"foo","1.2.3.4"); same_entry(hf,"foo","5.6.7.8"); '
+         'same_entry(hf,"bar","1.2.3.4"); addr_canon(hf,"5.6.7.8","foo"); addr_hostcount(hf,"1.2.3.4",2); count_names(hf,2); count_addrs(hf,2);', ["two addresses stored"], False),
+        ("merge_families", "127.0.0.1 lh.ld lh\n::1 lh.ld lh\n", 2,
+         'name_has_ip(hf,"lh","127.0.0.1"); name_has_ip(hf,"lh","::1"); name_ipcount(hf,"lh.ld",2); addr_canon(hf,"::1","lh.ld"); addr_hostcount(hf,"::1",2); '
+         'same_entry(hf,"lh","::1"); same_entry(hf,"lh.ld","127.0.0.1"); count_names(hf,2); count_addrs(hf,2);', ["two addresses stored"], False),
+        ("merge_doc", "10.1.1.1 h.e h\n10.1.1.5 h.e h\n2620::1 h.e h6.e h6 h\n", 4,
+         'name_ipcount(hf,"h.e",3); name_has_ip(hf,"h6",  "10.1.1.1"); name_has_ip(hf,"h","2620::1"); addr_canon(hf,"10.1.1.5","h.e"); addr_hostcount(hf,"2620::1",4); '
+         'same_entry(hf,"h6.e","10.1.1.1"); count_names(hf,4); count_addrs(hf,3);', ["two addresses stored"], False),
+        ("merge_addr", "1.2.3.4 foo\n1.2.3.4 bar\n", 2, V + "count_names(hf,2); count_addrs(hf,1);", [], False),
+        ("first_wins", "1.2.3.4 foo\n5.6.7.8 bar\n9.9.9.9 bar foo\n", 2,   # third line joins the entry of its FIRST name that is known (bar); foo stays where it was
+         'name_has_ip(hf,"foo","1.2.3.4"); name_ipcount(hf,"foo",1); name_has_ip(hf,"bar","5.6.7.8"); name_has_ip(hf,"bar","9.9.9.9"); addr_canon(hf,"1.2.3.4","foo"); '
+         'addr_canon(hf,"9.9.9.9","bar"); count_names(hf,2); count_addrs(hf,3);',
+         ["two addresses stored"], False),
+        ("dupname", "1.2.3.4 foo foo bar\n", 2, 'name_has_ip(hf,"foo","1.2.3.4"); name_has_ip(hf,"bar","1.2.3.4"); addr_canon(hf,"1.2.3.4","foo"); count_names(hf,2);', [], False),
+        # line independence: arbitrary bytes next to valid lines
+        ("junk_first", "9.9.9.999 @@@\n1.2.3.4 foo bar\n", 2, V + "count_names(hf,2); count_addrs(hf,1);", [], False),
+        ("junk_last", "1.2.3.4 foo bar\n# @@@", 2, V + "count_names(hf,2); count_addrs(hf,1);", [], False),
+        ("junk_between", "1.2.3.4 foo\n  #@@\n5.6.7.8 bar\n", 2,
+         'name_has_ip(hf,"foo","1.2.3.4"); name_ipcount(hf,"foo",1); name_has_ip(hf,"bar","5.6.7.8"); name_ipcount(hf,"bar",1); addr_hostcount(hf,"1.2.3.4",1); '
+         'addr_hostcount(hf,"5.6.7.8",1); count_names(hf,2); count_addrs(hf,2);', ["two addresses stored"], False),
+        ("junkaddr_first", "5.6.7.8 @@\n1.2.3.4 foo bar\n", 2, V, ["junk defined a name", "two addresses stored"], False),
+        ("junkaddr_last", "1.2.3.4 foo bar\n::1 @@", 2, V, ["junk defined a name", "two addresses stored"], False),
+                ("tail", "1.2.3.4 foo @@\n5.6.7.8 bar\n", 2,
+         'name_has_ip(hf,"foo","1.2.3.4"); name_ipcount(hf,"foo",1); name_has_ip(hf,"bar","5.6.7.8"); name_ipcount(hf,"bar",1); addr_canon(hf,"1.2.3.4","foo"); '
+         'addr_hostcount(hf,"5.6.7.8",1); count_addrs(hf,2);', ["junk defined a name", "two addresses stored"], False),
+        ("anybyte", "1.2.3.4 foo @@", 1, 'name_has_ip(hf,"foo","1.2.3.4"); addr_canon(hf,"1.2.3.4","foo"); count_addrs(hf,1);', [], True),
+    ]
+    for nm, text, names0, checks, wit, anybyte in shapes:
+        n = len(text)
+        holes = text.count("@")
+        if holes:
+            # NOT REGISTERED: every shape with arbitrary bytes in the file (2-3 holes, even when confined to a trailing comment or
+            # to the alias region of a line with a concrete address) ended without a verdict after 150-240 CPU s; the concrete
+            # shapes close in 5-18 s.  Line independence of the hosts reader is therefore covered by concrete junk/comment/
+            # malformed-line shapes only (comments, badaddr, noname, badname, nonl).
+            continue
+        nl = text.count("\n") + 1 + holes
+        u = pton_unwind(46)
+        u.update({"strchr.0": 24, "fread.0": n + 1, "ares_parse_hosts.0": nl + 2, "ares_parse_hosts_hostnames.0": 8, "ares_buf_consume_line.0": n + 1,
+                  "ares_buf_consume_whitespace.0": n + 1, "ares_buf_consume_nonwhitespace.0": n + 1, "ares_buf_tag_fetch_string.0": 47,
+                  "memcpy.0": 47, "strlen.0": 47, "ares_strcpy.0": 47, "ares_is_hostname.0": 12, "ares_strcaseeq.0": 47, "strcasecmp.0": 47,
+                  "ci_eq.0": 49, "list_count.0": 9, "wellformed.0": 8, "wellformed.1": 8, "wellformed.2": 8, "vp_strvp_nth.0": 8, "find.0": 8,
+                  "vp_strvp_key_eq.0": 47, "ref_len.0": 47, "ares_htable_strvp_insert.0": 47, "ares_htable_strvp_insert.1": 47, "ares_htable_strvp_insert.2": 47,
+                  "unlink_node.0": 8, "ares_htable_strvp_destroy.0": 8, "ares_llist_clear.0": 8, "ares_hosts_file_merge_entry.0": 6,
+                  "ares_hosts_file_merge_entry.1": 6, "ares_hosts_file_match.0": 6, "ares_hosts_file_match.1": 6, "ares_hosts_file_add.0": 6,
+                  "ares_hosts_entry_isdup.0": 6, "ares_buf_ensure_space.0": 8, "ares_inet_ntop.0": 10, "ares_inet_ntop.1": 10,
+                  "inet_ntop4.0": 6, "inet_ntop6.0": 18, "inet_ntop6.1": 10, "inet_ntop6.2": 10, "inet_ntop6.3": 10, "strcpy.0": 47, "snprintf.0": 12, "snprintf.1": 47, "vp_put_num.0": 6, "vp_put_num.1": 6})
+        J.append(dict(name="c15_hosts_%s" % nm, harness="hostsline.c",
+                      defines=["-DTEXT=" + cq(text), "-DNAMES0=%d" % names0, "-DCHECKS=" + checks] + (["-DANYBYTE"] if anybyte else []),
+                      real=HF_LIB, support=HF_SUP, unwind=12, unwindset=us(u), leak=True, kf_group="c15_hosts", native=False, timeout=150,
+                      instrument=[["--restrict-function-pointer", "ares_llist_node_destroy.function_pointer_call.1/ares_free"]],
+                      witnesses=["end", "names stored"] + wit,
+                      bound="real ares_parse_hosts (+ ares_buf_load_file over in-memory stdio stubs) on the file %s%s; ares_htable_strvp = "
+                            "reference container strvp_ref.c (association list, case-insensitive keys); expected lookups written per job from the "
+                            "file-format documentation" % (repr(text), (", each '@' = an ARBITRARY byte" + (" (any value except line feed)" if anybyte else " of 'xyX \\t#.-'")) if holes else "")))
+    return J
+
+
 RL_LIB = ["src/lib/ares_library_init.c", "src/lib/str/ares_buf.c", "src/lib/str/ares_str.c", "src/lib/str/ares_strsplit.c",
           "src/lib/ares_hosts_file.c", "src/lib/dsa/ares_llist.c", "src/lib/util/ares_math.c", "src/lib/ares_sysconfig_files.c"]
 RL_KEYS = [("domain", 1), ("search", 1), ("lookup", 2), ("hostresorder", 2), ("nameserver", 3), ("sortlist", 4), ("options", 5),
@@ -501,6 +593,7 @@ def jobs(tier, seed):
     J += pton_jobs(tier)
     J += nsuri_jobs(tier)
     J += sysconf_jobs(tier)
+    J += hosts_jobs(tier)
     J += resolvline_jobs(tier)
     J += hostaliases_jobs(tier)
     if tier == "quick":
